@@ -12,7 +12,8 @@ _SESS_ASSUME = ["per-key atomicity of the concurrent swiss map and sequential co
                 "pointer sharing of *SnapshotMarker inside Offset is modelled by value copy; the correspondence re-reads earlier offsets at save time",
                 "a fail-stop inside a library goroutine (checkpoint ahead of the high seqno) kills the process: exercised in child processes by the C15 stream, not here"]
 _SESS_NOTE = "trusted: Lean kernel, Model/Observer.lean + Model/Session.lean (validated on every run), the L1 fakes and online generator, the Lean run-time monitor (Driver/SessionMon.lean)"
-_P_SAVE = ["written", "openreq", "savecall", "saveerr", "nowrite", "flag="]
+# C01 speaks about the stored SEQUENCE NUMBER relative to what was settled: tuples are reduced to (seq)
+_P_SAVE = {"parts": ["written", "openreq", "savecall", "saveerr", "nowrite", "flag="], "tuples": "seq"}
 PROPS["C01"] = {
     "streams": ["sess-crash", "sess-base"], "audit": "C01.lean", "shrink": True, "clauses": ["C01"],
     "compare_parts": {"sess-crash": _P_SAVE, "sess-base": _P_SAVE},
@@ -34,13 +35,14 @@ PROPS["C03"] = {
 }
 PROPS["C04"] = {
     "streams": ["sess-ack", "sess-base"], "audit": "C04.lean", "shrink": True, "clauses": ["C04"],
-    "compare_parts": {"sess-ack": ["track", "pos", "stale"], "sess-base": ["track", "pos", "stale"]},
+    # C04 speaks about the tracked sequence number: tuples are reduced to (seq)
+    "compare_parts": {"sess-ack": {"parts": ["track", "pos", "stale"], "tuples": "seq"}, "sess-base": {"parts": ["track", "pos", "stale"], "tuples": "seq"}},
     "rule": _SESS_RULE, "assumptions": _SESS_ASSUME + ["acknowledgements of one and the same vBucket are issued one at a time"],
     "design_ref": "DESIGN.md §7 C04",
     "level_text": "Kernel-checked (Props/C04): for ANY order and repetition of acknowledgements and absorbed events the tracked position of an assigned vBucket is the running maximum of the settled seqnos starting at the resume position; TrackOffset reports are non-decreasing and end at the position; out-of-range acknowledgements change nothing but the flag and never create a checkpoint; acknowledgements on different vBuckets commute. Monitor on real traces: no regressing track, ack tracks its own seqno, no lost ack.",
     "level_note": _SESS_NOTE,
 }
-_P_C05 = ["written", "savecall", "saveerr", "nowrite", "flag=", "pos"]
+_P_C05 = {"parts": ["written", "savecall", "saveerr", "nowrite", "flag=", "pos"], "tuples": "seq"}
 PROPS["C05"] = {
     "streams": ["sess-save", "sess-crash"], "audit": "C05.lean", "shrink": True, "clauses": ["C05"],
     "compare_parts": {"sess-save": _P_C05, "sess-crash": _P_C05},
@@ -49,7 +51,8 @@ PROPS["C05"] = {
     "level_text": "Kernel-checked (Props/C05): a save with the flag down performs no store call; a failed or partially failed save leaves offsets, every dirty map and the flag untouched and the next quiescent successful save stores every dirty vBucket's current position; a quiescent successful save stores exactly the dirty positions and lowers the flag; the full statement is refuted twice (F1: dirty but flag down; F2: settle between dump and unmark / overlapping savers) and proved under the complement of the two decidable patterns. The monitor evaluates the durable-after-save clause on every real trace and classifies F1/F2.",
     "level_note": "partial: findings F1 and F2; " + _SESS_NOTE,
 }
-_P_C06 = ["deliver", "track", "written", "openreq", "savecall", "failstop", "pos", "ctx"]
+# C06: the sites that CREATE offsets are compared in full; every other part is covered by the monitor's validity clause
+_P_C06 = ["deliver", "ctx", "openreq", "failstop"]
 PROPS["C06"] = {
     "streams": ["sess-deliver", "sess-save"], "audit": "C06.lean", "shrink": True, "clauses": ["C06"],
     "compare_parts": {"sess-deliver": _P_C06, "sess-save": _P_C06},
